@@ -126,6 +126,7 @@ def api_aperture_stats(sc, D, E, U=None):
     s = ApertureStats(D, CircularAperture(sc['pos'], 4.2), error=E, mask=sc['mask'])
     out = {f'flux:{n}': getattr(s, n) for n in ('sum', 'sum_err', 'min', 'max', 'mean', 'median', 'std', 'mad_std', 'biweight_location', 'mode')}
     out.update({f'plain:{n}': getattr(s, n) for n in ('xcentroid', 'ycentroid', 'sum_aper_area', 'covar_sigx2', 'covar_sigxy', 'orientation', 'fwhm', 'gini')})
+    out.update({f'flux2:{n}': getattr(s, n) for n in ('var', 'biweight_midvariance')})          # variances carry the squared unit
     return out
 
 
@@ -229,8 +230,20 @@ def api_profiles(sc, D, E, U=None):
     x0, y0 = sc['pos'][0]
     rp = RadialProfile(D, (x0, y0), np.arange(0, 9), error=E, mask=sc['mask'])
     cg = CurveOfGrowth(D, (x0, y0), np.arange(1, 9), error=E, mask=sc['mask'])
-    return {'flux:profile': rp.profile, 'flux:profile_error': rp.profile_error, 'plain:area': rp.area, 'plain:gaussian_fwhm': rp.gaussian_fwhm,
-            'flux:cog': cg.profile, 'flux:cog_error': cg.profile_error}
+    def fin(v):
+        # data_profile lists the raw pixels, masked ones included: what a masked non-finite pixel reads as (inf / NaN) is not compared
+        vv = np.ma.getdata(v)
+        return np.where(np.isfinite(getattr(vv, 'value', vv)), vv, np.nan)
+    out = {'flux:profile': rp.profile, 'flux:profile_error': rp.profile_error, 'plain:area': rp.area, 'plain:gaussian_fwhm': rp.gaussian_fwhm,
+           'flux:cog': cg.profile, 'flux:cog_error': cg.profile_error, 'flux:data_profile': fin(rp.data_profile)}
+    # normalised arrays are ratios; unnormalize gives the unit back (F63: data_profile had no unit, then 1/unit, then a dimensionless Quantity)
+    rn = RadialProfile(D, (x0, y0), np.arange(0, 9), error=E, mask=sc['mask'])
+    _ = rn.data_profile
+    rn.normalize()
+    out.update({'ratio:profile_normalized': rn.profile, 'ratio:data_profile_normalized': fin(rn.data_profile)})
+    rn.unnormalize()
+    out.update({'flux:profile_restored': rn.profile, 'flux:data_profile_restored': fin(rn.data_profile)})
+    return out
 
 
 def api_total_error(sc, D, E, U=None):
@@ -441,6 +454,14 @@ def sweep(rep, r, nscenes):
                         break
                     if kind == 'flux' and unit_of(gv) != U:
                         rep.violation(f'unit-missing:{name}:{nm}', f'{name} [{kk}]: inputs in Jy but the output has unit {unit_of(gv)!r}',
+                                      dict(rp, representation='quantity'))
+                        break
+                    if kind == 'flux2' and unit_of(gv) != U ** 2:
+                        rep.violation(f'unit-missing:{name}:{nm}', f'{name} [{kk}]: inputs in Jy but the variance-like output has unit {unit_of(gv)!r}',
+                                      dict(rp, representation='quantity'))
+                        break
+                    if kind == 'ratio' and unit_of(gv) is not None and unit_of(gv) != u.dimensionless_unscaled:
+                        rep.violation(f'unit-spurious:{name}:{nm}', f'{name} [{kk}]: a normalised (ratio) output has unit {unit_of(gv)!r}',
                                       dict(rp, representation='quantity'))
                         break
                     if kind == 'plain' and unit_of(gv) is not None and unit_of(gv).is_equivalent(U):
